@@ -12,13 +12,14 @@ Oracle commands for the model of wazevo's front end on structured control flow, 
       for a straight-line function: 1 iff `lowerCF f = lowerSL f.toFn` and the two `format`s agree, else 0; `-` if the
       function is not straight-line
   c01frontcf wt    …     `wellTyped`: 1 / 0
-  c01frontcf wf    …     `SsaPass.wellFormed (lowerCF f)`: 1 / 0
+  c01frontcf wf    …     `wellFormedA (lowerCF f)` (SsaPass.WF for the certificate extended to aliased temporaries): 1 / 0
+  c01frontcf wfraw …     `SsaPass.wellFormed (lowerCF f)`: 1 / 0 (0 when `findValue` recorded an alias)
   c01frontcf run   <params> <results> <locals> <args> <body tokens…>
       `spec=<o> ssa=<o> opt=<o>`: the reference semantics (`Wz.Spec.Wasm.invoke`, fuel 6000), `SsaPass.run` (fuel
       4000) on `lowerCF f` and on `runPasses (lowerCF f)`; execution / module context arguments 0xec / 0x3c
   c01frontcf runssa <args> <function in c01ssa token syntax, with `A<dst>:<src>` tokens>
       `SsaPass.run` (fuel 4000) on a function given as SSA text: used on the output of the REAL front end
-  c01frontcf wfssa <function in c01ssa token syntax, with `A` tokens>     `wellFormed`: 1 / 0
+  c01frontcf wfssa <function in c01ssa token syntax, with `A` tokens>     `wellFormedA`: 1 / 0
 
 Body tokens: those of `c01front`, and `unreachable`, `br:<l>`, `br_if:<l>`, `block:<bt>`, `loop:<bt>`, `if:<bt>`,
 `else`, `end`; <bt> is `<params>><results>` with comma separated `i32`/`i64` or `-` (`block:->i32`, `if:i32>-`).
@@ -145,6 +146,10 @@ def step (st : St) (args : List String) : St × String :=
     | none => (st, "bad-op")
   | "wf" :: ps :: rs :: ls :: body =>
     match parseFunction ps rs ls body with
+    | some f => (st, b2s (wellFormedA (lowerCF f)))
+    | none => (st, "bad-op")
+  | "wfraw" :: ps :: rs :: ls :: body =>
+    match parseFunction ps rs ls body with
     | some f => (st, b2s (wellFormed (lowerCF f)))
     | none => (st, "bad-op")
   | "run" :: ps :: rs :: ls :: as :: body =>
@@ -159,7 +164,7 @@ def step (st : St) (args : List String) : St × String :=
     | _, _ => (st, "bad-op")
   | "wfssa" :: toks =>
     match parseFnA toks with
-    | some g => (st, b2s (wellFormed g))
+    | some g => (st, b2s (wellFormedA g))
     | none => (st, "bad-op")
   | _ => (st, "bad-op")
 
